@@ -358,12 +358,22 @@ def render_fragment(rng, g, nodes, desc, start=None, opts=None):
                 else:
                     seq.append(rl[j])
                     j += 1
+        ks = kids[n]
+        # descriptors may also be written after (some of) the branches of their atom: C(CC)[$]C
+        late = []
+        if len(ks) >= 2 and rng.random() < opts.get('desc_after_branch', 0.0):
+            descs_ = [it for it in seq if it[0] == 'desc']
+            if descs_:
+                k = rng.randint(1, len(descs_))
+                late = descs_[-k:]
+                keep = descs_[:-k]
+                it_keep = iter(keep)
+                seq = [x for x in seq if x[0] == 'ring' or x in keep]
         for kind_, x in seq:
             if kind_ == 'ring':
                 tokens.append(('ring', ring_text(*x), n))
             else:
                 tokens.append(('desc', fmt_desc(*x, explicit_single=rng.random() < opts.get('explicit_single', 0.0)), n, x))
-        ks = kids[n]
         for i, x in enumerate(ks):
             bs = bond_sym(g, n, x, rng, opts.get('explicit_single', 0.0))
             if i < len(ks) - 1:
@@ -372,6 +382,10 @@ def render_fragment(rng, g, nodes, desc, start=None, opts=None):
                     tokens.append(('bond', bs))
                 emit(x)
                 tokens.append(('close',))
+                if late and (i == len(ks) - 2 or rng.random() < 0.5):
+                    for kind_, x2 in late:
+                        tokens.append(('desc', fmt_desc(*x2), n, x2))
+                    late = []
             else:
                 if bs:
                     tokens.append(('bond', bs))
